@@ -216,12 +216,16 @@ class Emitter:
         return n
 
 
-HEADER = """From Coq Require Import String Ascii NArith Bool List.
-From UFLV Require Import Props.C29_model Props.C29_sorted.
-Import ListNotations.
-Open Scope N_scope.
-Open Scope string_scope.
-"""
+def header(modules=("Props.C29_model",), zarith=False):
+    """Preamble of a generated file importing the given hand-written modules (C11 and C12 build on the C29
+    model and add their own; they ask for their modules by name rather than patching HEADER's text)."""
+    libs = "String Ascii NArith ZArith Bool List" if zarith else "String Ascii NArith Bool List"
+    return (f"From Coq Require Import {libs}.\n"
+            f"From UFLV Require Import {' '.join(modules)}.\n"
+            "Import ListNotations.\nOpen Scope N_scope.\nOpen Scope string_scope.\n")
+
+
+HEADER = header(("Props.C29_model", "Props.C29_sorted"))
 
 CMPNAME = {-1: "Lt", 0: "Eq", 1: "Gt"}
 
